@@ -3,6 +3,7 @@ import Zc.Proofs.Classify
 import Zc.Proofs.Response
 import Zc.Proofs.ResponseComplete
 import Zc.Props.C12Host
+import Zc.GenFacts.FnQueue
 /-! # C12 — reply timing: jitter, aggregation, one-second protection, truncated queries
 
 Numbers in the statements (20, 120, 500, 1000, 1020, 1200, 400) come from the English property;
@@ -553,5 +554,39 @@ example : ∃ (seen : SeenMap) (now : Int) (answers : Dict) (r : RecId) (s : See
 example : ((({} : QR).addMcast false [(7, { created := 100, ttl := 120 })] 1099 1 33 [(7, [])]).mcastLast = [7]) := by decide
 example : ((({} : QR).addMcast false [(7, { created := 100, ttl := 120 })] 1100 1 33 [(7, [])]).mcastNow = [7]) := by decide
 example : ((({} : QR).addMcast false [(7, { created := 100, ttl := 120 })] 1100 2 33 [(7, [])]).mcastAgg = [7]) := by decide
+
+/-! ## Tie: the source of `_handlers/multicast_outgoing_queue.py`, translated statement by statement on every run
+
+`Zc.GenFn.Queue` is regenerated from the *bodies* of `MulticastOutgoingQueue.async_add`, `_remove_answers_from_queue` and
+`async_ready` (`tools/gen_fn.py`; `random.randint`, `loop.time()`, `current_time_millis()` are parameters, `loop.call_at` and
+`zc.async_send` returned effects); `GenFacts/FnQueue.lean` proves that the `Queue` model above computes what those bodies
+compute.  So the window theorems speak about a queue whose every step is the translated source, and an edit of one of the three
+bodies breaks a named lemma of `FnQueue` at stage P. -/
+section Tie
+open Zc.Py Zc.GenFn.Queue Zc.GenFacts.FnQueue
+
+/-- **The model queue is the translated queue, along every history of calls.**  For any sequence of `async_add` (with any draw
+and loop time), `async_ready` (clock reading = loop time, as in the model) and `_remove_answers_from_queue` calls on a fresh queue,
+handed well-formed dicts: the translated code never raises (`queue[0]`, `queue[-1]`, `popleft` always find an element; the `while`
+bound suffices), its deque is the model's group list, each `call_at` it performs is the model's new timer and each transmission the
+model's batch, in order. -/
+theorem C12_queue_is_source (addl agg : Int) (ops : List QOp) (hops : ∀ op ∈ ops, op.WF) :
+    ∃ s', runGen ops (MulticastOutgoingQueue.init () addl agg) = .ok (s', (runModel { addl := addl, agg := agg } ops {}).2)
+      ∧ s'.queue = (runModel { addl := addl, agg := agg } ops {}).1.groups.map strip := by
+  obtain ⟨s', h1, h2, _⟩ := run_eq ops hops (s := MulticastOutgoingQueue.init () addl agg) (q := {})
+    ⟨rfl, fun g hg => by cases hg⟩
+  exact ⟨s', h1, h2.groups⟩
+
+/-- non-vacuity (the aggregation queue): two queries 10 ms apart, draws 100 and 20 — the second merges into the pending group
+(its `send_after` 1130 is not later than 1200), one timer is armed at 1100, the flush at 1100 sends both records in one batch -/
+example :
+    (runGen [.add 1000 [(1, [])] 100 1000, .add 1010 [(2, [7])] 20 1010, .ready 1100] (MulticastOutgoingQueue.init () 0 500)).toOption.map
+        (fun p => (p.1.queue.length, p.2.length))
+      = some (0, 2)
+    ∧ (runModel outQP [.add 1000 [(1, [])] 100 1000, .add 1010 [(2, [7])] 20 1010, .ready 1100] {}).2
+      = [QEffect.callAt 1100, QEffect.send [(1, []), (2, [7])]] := by
+  decide
+
+end Tie
 
 end Zc.Reply
